@@ -707,7 +707,11 @@ impl<'b> InnerBucket<'b> {
                         page.leaf_elements().iter().for_each(|leaf| {
                             if leaf.node_type == Node::TYPE_BUCKET {
                                 let meta: BucketMeta = leaf.value().into();
-                                remaining_pages.push(meta.root_page);
+                                // The committed page still lists a nested bucket that was deleted
+                                // earlier in this transaction; its pages are freed already.
+                                if !freelist.is_freed(meta.root_page) {
+                                    remaining_pages.push(meta.root_page);
+                                }
                             }
                         });
                     }
